@@ -236,6 +236,29 @@ def run(ops, K=2, needs_hist=(2,), chains=2, seed=0, J=1, init_cfgs=(), included
         ok = all(same(post(r), post(res)) and same(dict(r.get_samples()), dict(res.get_samples())) for r in retained)
         for c in range(chains):
             results_ev[c]["retained_ok"] = bool(ok)
+        # persistence: the results written with pkl_save and read back show the same chains (every third scenario)
+        pkl = "skipped"
+        if seed % 3 == 0:
+            import os
+            import pickle
+            import tempfile
+            fd, path = tempfile.mkstemp(suffix=".pkl")
+            os.close(fd)
+            try:
+                try:
+                    res.pkl_save(path)
+                    res2 = gs.SamplingResults.pkl_load(path)
+                except (pickle.PicklingError, AttributeError, TypeError) as ex:   # a harness class that cannot be pickled
+                    res2 = None
+                    pkl = "unpicklable:" + type(ex).__name__
+                if res2 is not None:
+                    ev2 = results_event(res2, eng, keys, K, chains, included, excluded, store_kernel_states, nq)
+                    strip = lambda d: {k: v for k, v in d.items() if k != "retained_ok"}
+                    pkl = "same" if all(ev2[c] == strip(results_ev[c]) for c in range(chains)) else "different"
+            finally:
+                os.unlink(path)
+        for c in range(chains):
+            results_ev[c]["pkl"] = pkl
     traces = []
     allkeys = [e["key"] for c in range(chains) for e in evs[c] if "key" in e]
     if not crashed:
